@@ -75,7 +75,8 @@ def r18_1(ctx: Ctx) -> None:
     g = CFG(ct.node)
     bad = []
     for up in (True, False):
-        for load, size, bw in ((1, 1, 3), (1, 2, 3), (2, 2, 3)):
+        # integer order cases plus two just either side of the limit (a comparison on rounded / truncated values shows here)
+        for load, size, bw in ((1, 1, 3), (1, 2, 3), (2, 2, 3), (2.996, 0.008, 3), (2.5, 0.496, 3)):
             ev = Evaluator({"self.is_up": up, "self.current_load": load, "frame.size_Mbits": size, "self.bandwidth": bw}, LocalDefs(ct.node))
             out, node, tr = walk(g, ev)
             if out == "unknown":
@@ -105,7 +106,7 @@ def r18_1(ctx: Ctx) -> None:
     n_rows = 0
     # a frequency with no entry yet carries load 0 (first frame after the per-tick reset): it is admitted like any other
     for present in (True, False):
-        for load, size, cap in ((1, 1, 3), (1, 2, 3), (2, 2, 3), (0, 2, 3), (0, 4, 3)):
+        for load, size, cap in ((1, 1, 3), (1, 2, 3), (2, 2, 3), (0, 2, 3), (0, 4, 3), (2.996, 0.008, 3), (2.5, 0.496, 3)):
             if not present and load != 0:
                 continue
             env = {load_t: load, size_t: size, cap_t: cap, f"{key_t} not in self.bandwidth_load": not present,
